@@ -346,10 +346,43 @@ class Sim:
         return outcome
 
     # ----------------------------------------------------------------------------------------------- running
+    def _drive_directly(self):
+        """The markets driven without Actuator.run(), the way demeter's own unit tests and Actuator-free users do it: every
+        minute each market is handed a MarketStatus that already CARRIES its data row, then the strategy's hooks run, then
+        the markets update.  Single-index market families only (uniswap, aave, squeeth, gmx); no account history."""
+        from demeter.broker import MarketStatus  # noqa
+
+        st = self.strategy
+        st.broker = self.broker
+        st.markets = self.broker.markets
+        st.actions = self.actuator.actions
+        for k, m in self.broker.markets.items():
+            setattr(st, k.name, m)
+        prices = self.actuator.token_prices
+        first = True
+        for row_id, ts in enumerate(self.index):
+            self.actuator._currents.timestamp = ts.to_pydatetime()
+            self.actuator._currents.actions = []
+            price_row = prices.loc[ts]
+            for m in self.markets.values():
+                m.set_market_status(MarketStatus(ts.to_pydatetime(), m.data.loc[ts]), price_row)
+            if first:
+                st.initialize()
+                first = False
+            snap = Snapshot(ts.to_pydatetime(), row_id, price_row)
+            st.before_bar(snap)
+            st.on_bar(snap)
+            for m in self.markets.values():
+                m.update()
+            st.after_bar(snap)
+
     def run(self):
         self.oracle.start(self)
         try:
-            self.actuator.run(print_result=False)
+            if self.scenario.get("opts", {}).get("drive") == "direct":
+                self._drive_directly()
+            else:
+                self.actuator.run(print_result=False)
         except HarnessError:
             raise
         except Exception as e:
